@@ -383,7 +383,7 @@ class Walk:
         elif d == "very_old_ts":
             spec["ts"] = str(self.now - 100000)
         elif d == "future_ts":
-            spec["ts"] = str(self.now + rng.choice([10, 100000, 200000]))
+            spec["ts"] = str(self.now + rng.choice([10, 250, 299, 300, 301, 100000]))
         elif d == "bad_ts":
             spec["ts"] = rng.choice(["abc", "12.5", "1e9", "", "0x10", "1__0", "_1", "1_"])
         elif d == "neg_ts":
@@ -513,14 +513,16 @@ def gen_sequence(ctx, supported, rng, length, run_prefix):
             labels.append("access:%s:%s" % (d, "own" if client == k["client"] else "other-client"))
             run_prefix(w.ops)
         elif r < 0.94 and any(o["op"] != "tick" for o in w.ops):
-            prev = rng.choice([o for o in w.ops if o["op"] != "tick"])
+            cands = [o for o in w.ops if o["op"] != "tick"]
+            # after a clock advance prefer what was sent just before it
+            prev = cands[-1] if (w.ops[-1]["op"] == "tick" and rng.random() < 0.6) else rng.choice(cands)
             w.ops.append(copy.deepcopy(prev))
             labels.append("replay:" + prev["op"])
             out = run_prefix(w.ops)[-1]
             if prev["op"] == "exchange" and out[0] == "token":
                 w.toks.append({"token": out[1], "secret": out[2], "client": "?"})
         else:
-            dt = rng.choice([1, 100, 301, 86401, 100000])
+            dt = rng.choice([1, 100, 301, 301, 310, 590, 86401, 100000])
             w.ops.append({"op": "tick", "dt": dt})
             w.now += dt
             labels.append("tick")
@@ -661,9 +663,16 @@ def golden(ctx, supported):
             return run_impl(supported, ops)["outs"]
 
         s = spec0(client="c1", callback="https://client.example/cb")
+        if dev == "initiate-near-future-replay":
+            s["ts"] = str(clock[0] + 299)
         sign_defaults(s, "c1", "")
         ops.append({"op": "initiate", "req": build_req(ctx, "initiate", s)})
         labels.append("initiate:none")
+        if dev == "initiate-near-future-replay":
+            ops.append({"op": "tick", "dt": 302})
+            ops.append(copy.deepcopy(ops[0]))
+            labels.extend(["tick", "replay:initiate"])
+            return ops, labels
         t = run()[-1]
         if t[0] != "temp":
             return None
@@ -702,13 +711,18 @@ def golden(ctx, supported):
                 s["sign_token_secret"] = "nope"
             if dev == "access-future-ts":
                 s["ts"] = str(clock[0] + 200000)
+            if dev == "access-near-future-ts":
+                s["ts"] = str(clock[0] + 290)
             sign_defaults(s, "c1", k[2])
             acc = {"op": "access", "req": build_req(ctx, "access", s)}
             ops.append(acc)
             labels.append("access:" + dev)
-            if dev in ("replay-access", "access-future-ts"):
+            if dev in ("replay-access", "access-future-ts", "access-near-future-ts"):
                 if dev == "access-future-ts":
                     ops.append({"op": "tick", "dt": 86401})
+                    labels.append("tick")
+                if dev == "access-near-future-ts":
+                    ops.append({"op": "tick", "dt": 301})
                     labels.append("tick")
                 ops.append(copy.deepcopy(acc))
                 labels.append("replay:access")
@@ -720,7 +734,8 @@ def golden(ctx, supported):
         return ops, labels
 
     for dev in ("none", "unapproved", "denied", "other-client", "wrong-verifier", "wrong-temp-secret", "exchange-twice", "replay-exchange",
-                "tick-temp-expired", "access-wrong-token-secret", "replay-access", "access-other-client", "access-future-ts"):
+                "tick-temp-expired", "access-wrong-token-secret", "replay-access", "access-other-client", "access-future-ts",
+                "access-near-future-ts", "initiate-near-future-replay"):
         r = flow(dev)
         if r:
             seqs.append((dev, r[0], r[1]))
